@@ -11,6 +11,7 @@ mod heap;
 mod json;
 mod prng;
 mod props;
+mod rcsearch;
 mod refmodel;
 mod runner;
 mod scenario;
@@ -58,6 +59,12 @@ fn main() {
             }
         }
         Some("determinism") => cmd_determinism(&args),
+        Some("rcwitness") => {
+            let seed = arg_val(&args, "--seed").and_then(|s| s.parse().ok()).unwrap_or(1);
+            let secs = arg_val(&args, "--seconds").and_then(|s| s.parse().ok()).unwrap_or(600);
+            let th = arg_val(&args, "--jobs").and_then(|s| s.parse().ok()).unwrap_or(16);
+            rcsearch::run(seed, secs, th)
+        }
         Some("longsym") => {
             selftest::long_symbol_report();
             0
